@@ -141,6 +141,7 @@ func (c *VirtualTable) Open() (sqlite.VirtualCursor, error) {
 	return &Cursor{
 		common: common,
 		ctx:    c.module.sc.ctx,
+		keyCol: c.common.KeyCol,
 	}, nil
 }
 
@@ -163,6 +164,7 @@ func (c *VirtualTable) Destroy() error {
 type Cursor struct {
 	common *s3db.Cursor
 	ctx    context.Context
+	keyCol int
 }
 
 func (c *Cursor) Next() error {
@@ -170,6 +172,11 @@ func (c *Cursor) Next() error {
 }
 
 func (c *Cursor) Column(ctx *sqlite.VirtualTableContext, i int) error {
+	if i != c.keyCol && ctx.NoChange() {
+		// an UPDATE does not assign this column: leave it unset, so that
+		// valuesToGo sees NoChange and the column keeps its own write time
+		return nil
+	}
 	v, err := c.common.Column(i)
 	if err != nil {
 		return toSqlite(err)
